@@ -70,11 +70,17 @@ impl WriteCircuitBreaker {
     }
 
     pub fn should_allow_request(&self) -> bool {
+        #[cfg(sierradb_verif)]
+        verif::pause("allow.state");
         match self.current_state() {
             CircuitState::Closed => true,
             CircuitState::Open => {
                 // Check if enough time has passed to try recovery
+                #[cfg(sierradb_verif)]
+                verif::pause("allow.clock");
                 let now = current_timestamp();
+                #[cfg(sierradb_verif)]
+                verif::pause("allow.lf");
                 let last_failure = self.last_failure_time.load(Ordering::Acquire);
 
                 if now - last_failure >= self.recovery_timeout.as_millis() as u64 {
@@ -87,6 +93,8 @@ impl WriteCircuitBreaker {
             }
             CircuitState::HalfOpen => {
                 // Allow limited requests to test system recovery
+                #[cfg(sierradb_verif)]
+                verif::pause("allow.hocc");
                 let current_calls = self.half_open_call_count.fetch_add(1, Ordering::AcqRel);
                 current_calls < self.half_open_max_calls
             }
@@ -94,15 +102,25 @@ impl WriteCircuitBreaker {
     }
 
     pub fn record_success(&self) {
-        self.last_success_time
-            .store(current_timestamp(), Ordering::Release);
+        #[cfg(sierradb_verif)]
+        verif::pause("succ.clock");
+        let now = current_timestamp();
+        #[cfg(sierradb_verif)]
+        verif::pause("succ.ls");
+        self.last_success_time.store(now, Ordering::Release);
 
+        #[cfg(sierradb_verif)]
+        verif::pause("succ.state");
         match self.current_state() {
             CircuitState::Closed => {
                 // Reset failure count on success
+                #[cfg(sierradb_verif)]
+                verif::pause("succ.fc");
                 self.failure_count.store(0, Ordering::Release);
             }
             CircuitState::HalfOpen => {
+                #[cfg(sierradb_verif)]
+                verif::pause("succ.hosc");
                 let successes = self.half_open_success_count.fetch_add(1, Ordering::AcqRel) + 1;
 
                 if successes >= self.half_open_success_threshold {
@@ -118,11 +136,19 @@ impl WriteCircuitBreaker {
     }
 
     pub fn record_failure(&self) {
-        self.last_failure_time
-            .store(current_timestamp(), Ordering::Release);
+        #[cfg(sierradb_verif)]
+        verif::pause("fail.clock");
+        let now = current_timestamp();
+        #[cfg(sierradb_verif)]
+        verif::pause("fail.lf");
+        self.last_failure_time.store(now, Ordering::Release);
 
+        #[cfg(sierradb_verif)]
+        verif::pause("fail.state");
         match self.current_state() {
             CircuitState::Closed => {
+                #[cfg(sierradb_verif)]
+                verif::pause("fail.fc");
                 let failures = self.failure_count.fetch_add(1, Ordering::AcqRel) + 1;
                 if failures >= self.failure_threshold {
                     self.transition_to_open();
@@ -144,9 +170,15 @@ impl WriteCircuitBreaker {
     }
 
     pub fn estimated_recovery_time(&self) -> Option<Duration> {
+        #[cfg(sierradb_verif)]
+        verif::pause("ert.state");
         match self.current_state() {
             CircuitState::Open => {
+                #[cfg(sierradb_verif)]
+                verif::pause("ert.clock");
                 let now = current_timestamp();
+                #[cfg(sierradb_verif)]
+                verif::pause("ert.lf");
                 let last_failure = self.last_failure_time.load(Ordering::Acquire);
                 let elapsed = Duration::from_millis(now - last_failure);
 
@@ -174,16 +206,39 @@ impl WriteCircuitBreaker {
         }
     }
 
+    /// Verification hook: raw values of the six atomic cells
+    /// (state, failure_count, last_failure_time, last_success_time,
+    /// half_open_call_count, half_open_success_count).
+    #[cfg(sierradb_verif)]
+    pub fn verif_cells(&self) -> [u64; 6] {
+        [
+            self.state.load(Ordering::SeqCst) as u64,
+            self.failure_count.load(Ordering::SeqCst) as u64,
+            self.last_failure_time.load(Ordering::SeqCst),
+            self.last_success_time.load(Ordering::SeqCst),
+            self.half_open_call_count.load(Ordering::SeqCst) as u64,
+            self.half_open_success_count.load(Ordering::SeqCst) as u64,
+        ]
+    }
+
     fn transition_to_open(&self) {
+        #[cfg(sierradb_verif)]
+        verif::pause("top.state");
         self.state
             .store(CircuitState::Open as u8, Ordering::Release);
         // Reset half-open counters
+        #[cfg(sierradb_verif)]
+        verif::pause("top.hocc");
         self.half_open_call_count.store(0, Ordering::Release);
+        #[cfg(sierradb_verif)]
+        verif::pause("top.hosc");
         self.half_open_success_count.store(0, Ordering::Release);
     }
 
     fn transition_to_half_open(&self) {
         // Only transition if we're currently Open
+        #[cfg(sierradb_verif)]
+        verif::pause("tho.cas");
         let _ = self.state.compare_exchange(
             CircuitState::Open as u8,
             CircuitState::HalfOpen as u8,
@@ -191,25 +246,88 @@ impl WriteCircuitBreaker {
             Ordering::Acquire,
         );
         // Reset half-open counters
+        #[cfg(sierradb_verif)]
+        verif::pause("tho.hocc");
         self.half_open_call_count.store(0, Ordering::Release);
+        #[cfg(sierradb_verif)]
+        verif::pause("tho.hosc");
         self.half_open_success_count.store(0, Ordering::Release);
     }
 
     fn transition_to_closed(&self) {
+        #[cfg(sierradb_verif)]
+        verif::pause("tcl.state");
         self.state
             .store(CircuitState::Closed as u8, Ordering::Release);
         // Reset all counters
+        #[cfg(sierradb_verif)]
+        verif::pause("tcl.fc");
         self.failure_count.store(0, Ordering::Release);
+        #[cfg(sierradb_verif)]
+        verif::pause("tcl.hocc");
         self.half_open_call_count.store(0, Ordering::Release);
+        #[cfg(sierradb_verif)]
+        verif::pause("tcl.hosc");
         self.half_open_success_count.store(0, Ordering::Release);
     }
 }
 
 fn current_timestamp() -> u64 {
+    #[cfg(sierradb_verif)]
+    if let Some(now) = verif::mock_now() {
+        return now;
+    }
     SystemTime::now()
         .duration_since(UNIX_EPOCH)
         .unwrap_or_default()
         .as_millis() as u64
+}
+
+/// Verification hooks (compiled only with `--cfg sierradb_verif`): a mock clock for
+/// `current_timestamp()` and a scheduler callback invoked before every atomic operation of the
+/// circuit breaker, so a test harness can replay an exact interleaving on real threads.
+#[cfg(sierradb_verif)]
+pub mod verif {
+    use std::sync::{
+        Arc, RwLock,
+        atomic::{AtomicBool, AtomicU64, Ordering},
+    };
+
+    type Scheduler = Arc<dyn Fn(&'static str) + Send + Sync>;
+
+    static MOCK_ON: AtomicBool = AtomicBool::new(false);
+    static MOCK_NOW: AtomicU64 = AtomicU64::new(0);
+    static SCHEDULER: RwLock<Option<Scheduler>> = RwLock::new(None);
+
+    /// `Some(ms)` makes `current_timestamp()` return `ms`; `None` restores the system clock.
+    pub fn set_mock_clock(now: Option<u64>) {
+        if let Some(now) = now {
+            MOCK_NOW.store(now, Ordering::SeqCst);
+        }
+        MOCK_ON.store(now.is_some(), Ordering::SeqCst);
+    }
+
+    pub(super) fn mock_now() -> Option<u64> {
+        MOCK_ON
+            .load(Ordering::SeqCst)
+            .then(|| MOCK_NOW.load(Ordering::SeqCst))
+    }
+
+    /// Installs (or removes) the callback run by `pause`.
+    pub fn set_scheduler(scheduler: Option<Scheduler>) {
+        *SCHEDULER.write().unwrap_or_else(|e| e.into_inner()) = scheduler;
+    }
+
+    /// Called before the atomic operation named `point`; a no-op unless a scheduler is installed.
+    pub fn pause(point: &'static str) {
+        let scheduler = SCHEDULER
+            .read()
+            .unwrap_or_else(|e| e.into_inner())
+            .clone();
+        if let Some(scheduler) = scheduler {
+            scheduler(point);
+        }
+    }
 }
 
 #[cfg(test)]
